@@ -6,7 +6,13 @@ from common import hx
 from discsim import ascii_bytes, rb
 
 
-def good_reply(ctx, rng, version=None, dtype=0xAC, dev_id=None):
+OTHER_TYPES = [0xA1, 0xAB, 0xB0, 0xCA, 0xDB, 0xE1, 0xFA, 0xFC, 0x00, 0xFF]
+
+
+def good_reply(ctx, rng, version=None, dtype=None, dev_id=None):
+    # a well-formed reply of ANY appliance type is a good reply (non-AC units are reported as generic devices)
+    if dtype is None:
+        dtype = 0xAC if rng.random() < 0.6 else rng.choice(OTHER_TYPES + [rng.randrange(256)])
     sn = ascii_bytes(rng, 32)
     name = b"net_" + (b"%02x" % dtype) + b"_" + ascii_bytes(rng, 4)
     return discsim.spec_reply(ctx, rng, version or rng.choice([2, 3]), rng.randrange(2 ** 48) if dev_id is None else dev_id,
